@@ -96,14 +96,14 @@ pub fn print_impls(w: &mut impl Write) {
     per_backend_kind!(w, "keySerialize", |V, K| probe!(Key<V, K>: serde_core::Serialize));
     per_backend_kind!(w, "keyTextDisplay", |V, K| probe!(KeyText<V, K>: Display));
     per_backend_kind!(w, "keyTextDebug", |V, K| probe!(KeyText<V, K>: Debug));
-    per_backend!(w, "sealedLocalDisplay", |V| probe!(SealedToken<V, Local, Raw, ()>: Display));
-    per_backend!(w, "sealedPublicDisplay", |V| probe!(SealedToken<V, Public, Raw, ()>: Display));
-    per_backend!(w, "sealedLocalSerialize", |V| probe!(SealedToken<V, Local, Raw, ()>: serde_core::Serialize));
-    per_backend!(w, "unsealedLocalDisplay", |V| probe!(UnsealedToken<V, Local, Raw, ()>: Display));
-    per_backend!(w, "unsealedPublicDisplay", |V| probe!(UnsealedToken<V, Public, Raw, ()>: Display));
-    per_backend!(w, "unsealedLocalSerialize", |V| probe!(UnsealedToken<V, Local, Raw, ()>: serde_core::Serialize));
-    per_backend!(w, "unsealedPublicSerialize", |V| probe!(UnsealedToken<V, Public, Raw, ()>: serde_core::Serialize));
-    per_backend!(w, "unsealedLocalDebug", |V| probe!(UnsealedToken<V, Local, Raw, ()>: Debug));
+    per_backend!(w, "sealedLocalDisplay", |V| probe!(SealedToken<V, Local, Rich, Rich>: Display));
+    per_backend!(w, "sealedPublicDisplay", |V| probe!(SealedToken<V, Public, Rich, Rich>: Display));
+    per_backend!(w, "sealedLocalSerialize", |V| probe!(SealedToken<V, Local, Rich, Rich>: serde_core::Serialize));
+    per_backend!(w, "unsealedLocalDisplay", |V| probe!(UnsealedToken<V, Local, Rich, Rich>: Display));
+    per_backend!(w, "unsealedPublicDisplay", |V| probe!(UnsealedToken<V, Public, Rich, Rich>: Display));
+    per_backend!(w, "unsealedLocalSerialize", |V| probe!(UnsealedToken<V, Local, Rich, Rich>: serde_core::Serialize));
+    per_backend!(w, "unsealedPublicSerialize", |V| probe!(UnsealedToken<V, Public, Rich, Rich>: serde_core::Serialize));
+    per_backend!(w, "unsealedLocalDebug", |V| probe!(UnsealedToken<V, Local, Rich, Rich>: Debug));
     per_backend!(w, "pieWrappedDisplay", |V| probe!(PieWrappedKey<V, Local>: Display));
     per_backend!(w, "pwWrappedDisplay", |V| probe!(PasswordWrappedKey<V, Secret>: Display));
     per_backend!(w, "sealedKeyDisplay", |V| probe!(SealedKey<V>: Display));
